@@ -9,6 +9,8 @@
  *   P <s> <v>        a `call` stores return address id v into slot s                -> "P"
  *   E <k> <s>        mcount_entry(&slot[s], f<k>+4, regs)                           -> "E <ret> <errno_ok>"
  *   N                nothing (an entry that is not instrumented)                    -> "N"
+ *   STOP             tracing is being finished (as by a `finish` trigger in another thread): sets
+ *                    MCOUNT_GFL_FINISH; the next exit hook tears the thread's shadow stack down    -> "STOP"
  *   Z                next case: clear all slots and the dummy slot (mtd.idx must be 0)  -> "Z"
  *   PE <k> <s>       plthook_entry(&slot[s], k, module, regs) on a fake module whose PLT symbol k is f<k>
  *                    (only in the build with -DC01_WITH_PLT)                        -> "PE <ret!=0> <errno_ok>"
@@ -221,6 +223,10 @@ int main(int argc, char **argv)
 		}
 		else if (!strcmp(op, "N")) {
 			printf("N");
+		}
+		else if (!strcmp(op, "STOP")) {
+			mcount_global_flags |= MCOUNT_GFL_FINISH;
+			printf("STOP");
 		}
 		else if (!strcmp(op, "Z")) {
 			memset(slots, 0, sizeof(slots));
